@@ -1,5 +1,5 @@
 """C02 — MDSDRV bytecode plays exactly the song."""
-import re
+import itertools, re
 from vlib.core import Case
 from vlib import songgen
 
@@ -89,6 +89,32 @@ def adjacency_cases(rng, T, count):
     return out
 
 
+def nested_break_cases(T, tier):
+    LS, LB = (T["LOOP_START"], 0, 0, 0), (T["LOOP_BREAK"], 0, 0, 0)
+    LE = lambda c: (T["LOOP_END"], c, 0, 0)
+    durs = (12, 24)
+    kinds = ("note", "rest") if tier == "quick" else ("note", "rest", "tie")
+
+    def tm(kind, k, d):
+        if kind == "rest":
+            return (T["REST"], 0, 0, d)
+        if kind == "tie":
+            return (T["TIE"], 0, d, 0)
+        return (T["NOTE"], 36 + k, d, 0)
+    for kind in kinds:
+        for ds in itertools.product(durs, repeat=5):
+            a, b, c, d, e = [tm("note" if i < 4 else kind, i, ds[i]) for i in range(5)]
+            if kind == "rest":
+                b = tm("rest", 1, ds[1])
+            shapes = {
+                "inner-after-break": [LS, a, LB, LS, b, LB, c, LE(2), d, LE(2), e],
+                "inner-before-break": [LS, LS, a, LB, b, LE(2), c, LB, d, LE(2), e],
+                "inner-mid": [LS, a, LS, b, LB, c, LE(2), LB, d, LE(2), e],
+            }
+            for name, evs in shapes.items():
+                yield {0: evs}, name
+
+
 def _cases_orig(rng, tier):
     for c in CORPUS:
         yield Case(c, ("corpus",), "corpus")
@@ -101,6 +127,10 @@ def _cases_orig(rng, tier):
         if any(e[0] == T["SEGNO"] for e in flat): tags.add("segno")
         if any(e[0] == T["LOOP_START"] for e in flat): tags.add("loop")
         yield Case("conv " + songgen.render(song), sorted(tags), "adjacency")
+    # length registers across nested loops that both have a break: the implicit note/rest length
+    # after each loop end depends on which exit was taken (bounded-exhaustive over two lengths)
+    for song, name in nested_break_cases(T, tier):
+        yield Case("conv " + songgen.render(song), ("nested-break", name), "nested-break")
     n = 300 if tier == "quick" else 5000
     made = 0
     while made < n:
